@@ -452,19 +452,21 @@ Section Alg.
     Variable idxs : list nat.
     Hypothesis ser_ok : forall ib, In ib ser -> ok_kind (snd ib) = true.
 
+    Variable La : nat.               (* length of the angle vector handed in *)
     Let L := sum_params ser.
+    Hypothesis La_ok : L <= La.
     Let props := props_from ser 0.
     Let U := prodR props.
     Let cost := ev (mul (mul (dag U) obs) U).
 
     Notation jac_terms :=
-      (jac_terms A add mul dag Sc ev obs blockdU (seq 0 L) idxs U (U_prods props) (U_prods_back props)
+      (jac_terms A add mul dag Sc ev obs blockdU (seq 0 La) idxs U (U_prods props) (U_prods_back props)
                  (length props)).
 
     Lemma entry_ok : forall pre id b post t,
         ser = pre ++ (id, b) :: post -> t < n_params b ->
         exists dB,
-          get_unitary_derivative id b (pyslice (seq 0 L) (sum_params pre) (n_params b)) t = Some dB /\
+          get_unitary_derivative id b (pyslice (seq 0 La) (sum_params pre) (n_params b)) t = Some dB /\
           modify_unitary (U_prods props) (U_prods_back props) (length props) (length pre) dB
           = Some (d (sum_params pre + t) U).
     Proof.
@@ -473,7 +475,8 @@ Section Alg.
       { apply (ser_ok (id, b)). rewrite Hser. apply in_or_app. right. left. reflexivity. }
       assert (HL : L = sum_params pre + (n_params b + sum_params post)).
       { unfold L. rewrite Hser, sum_params_app, sum_params_cons. reflexivity. }
-      rewrite pyslice_seq by lia.
+      assert (HLa : sum_params pre + n_params b <= La) by (unfold L in *; lia).
+      rewrite pyslice_seq by exact HLa.
       exists (blockdU id (seq (sum_params pre) (n_params b)) t). split.
       - destruct b as [k ini]. unfold ok_kind in Hok. cbn [b_kind] in Hok.
         unfold Vqa.get_unitary_derivative, is_unitary, is_native. cbn [b_kind].
@@ -517,7 +520,7 @@ Section Alg.
 
     Lemma block_entries_ok : forall pre id b post,
         ser = pre ++ (id, b) :: post ->
-        block_entries A add mul dag Sc ev obs blockdU (seq 0 L) idxs U (U_prods props)
+        block_entries A add mul dag Sc ev obs blockdU (seq 0 La) idxs U (U_prods props)
                       (U_prods_back props) (length props) id b (length pre) (sum_params pre) (n_params b)
         = Some (map (fun j => D j cost)
                     (filter (fun j => mem j idxs) (seq (sum_params pre) (n_params b)))).
@@ -533,7 +536,7 @@ Section Alg.
 
     Lemma jac_loop_ok : forall post pre,
         ser = pre ++ post ->
-        jac_loop Sc (block_entries A add mul dag Sc ev obs blockdU (seq 0 L) idxs U (U_prods props)
+        jac_loop Sc (block_entries A add mul dag Sc ev obs blockdU (seq 0 La) idxs U (U_prods props)
                                    (U_prods_back props) (length props))
                  post (length pre) (sum_params pre)
         = Some (map (fun j => D j cost)
@@ -560,6 +563,35 @@ Section Alg.
   Definition requested (indices : option (list nat)) (L : nat) : list nat :=
     match indices with None => seq 0 L | Some l => l end.
 
+  (* angle vectors may be longer than needed (the code ignores the surplus entries) *)
+  Theorem jac_correct_long : forall bs layers indices La,
+      1 <= layers -> forallb ok_kind bs = true ->
+      let L := free_parameters_num bs layers in
+      L <= La ->
+      exists c,
+        evaluate bs layers (seq 0 La) = Some c /\
+        compute_jac bs layers (seq 0 La) indices
+        = Some (map (fun j => D j c) (filter (fun j => mem j (requested indices La)) (seq 0 L))).
+  Proof.
+    intros bs layers indices La Hl Hok L HLa.
+    pose (ser := block_series bs layers).
+    assert (HL : sum_params ser = L) by (apply series_sum_params; exact Hl).
+    assert (Hser_ok : forall ib, In ib ser -> ok_kind (snd ib) = true) by (apply series_ok; exact Hok).
+    assert (Hprops : propagators bs layers (seq 0 La) = Some (props_from ser 0)).
+    { unfold Vqa.propagators. rewrite construct_flat by exact Hl.
+      apply mapM_flat; [exact Hser_ok|]. fold ser. lia. }
+    exists (ev (mul (mul (dag (prodR (props_from ser 0))) obs) (prodR (props_from ser 0)))).
+    split.
+    - unfold Vqa.evaluate. rewrite Hprops. rewrite gsp_prodR. reflexivity.
+    - unfold Vqa.compute_jac, compute_jac_with. rewrite Hprops. rewrite gsp_prodR.
+      rewrite U_prods_length. rewrite seq_length.
+      fold ser.
+      assert (HLa' : sum_params ser <= La) by lia.
+      pose proof (jac_loop_ok ser (requested indices La) Hser_ok La HLa' ser [] eq_refl) as H.
+      rewrite HL in H. cbn [length sum_params fold_right] in H.
+      unfold requested in *. exact H.
+  Qed.
+
   Theorem jac_correct : forall bs layers indices,
       1 <= layers -> forallb ok_kind bs = true ->
       let L := free_parameters_num bs layers in
@@ -569,21 +601,7 @@ Section Alg.
         = Some (map (fun j => D j c) (filter (fun j => mem j (requested indices L)) (seq 0 L))).
   Proof.
     intros bs layers indices Hl Hok L.
-    pose (ser := block_series bs layers).
-    assert (HL : sum_params ser = L) by (apply series_sum_params; exact Hl).
-    assert (Hser_ok : forall ib, In ib ser -> ok_kind (snd ib) = true) by (apply series_ok; exact Hok).
-    assert (Hprops : propagators bs layers (seq 0 L) = Some (props_from ser 0)).
-    { unfold Vqa.propagators. rewrite construct_flat by exact Hl.
-      apply mapM_flat; [exact Hser_ok|]. fold ser. lia. }
-    exists (ev (mul (mul (dag (prodR (props_from ser 0))) obs) (prodR (props_from ser 0)))).
-    split.
-    - unfold Vqa.evaluate. rewrite Hprops. rewrite gsp_prodR. reflexivity.
-    - unfold Vqa.compute_jac, compute_jac_with. rewrite Hprops. rewrite gsp_prodR.
-      rewrite U_prods_length. rewrite seq_length.
-      fold ser.
-      pose proof (jac_loop_ok ser (requested indices L) Hser_ok ser [] eq_refl) as H.
-      rewrite HL in H. cbn [length sum_params fold_right] in H.
-      unfold requested in *. exact H.
+    exact (jac_correct_long bs layers indices L Hl Hok (le_n _)).
   Qed.
 
   Corollary jac_full : forall bs layers,
